@@ -161,6 +161,27 @@ for name, mod in sorted(sys.modules.items()):
         if not is_function_body:
             continue          # module and class bodies were executed by the import itself
         guards = guarded_ranges(c)
+        # import statements inside function bodies (not executed by the import of the module)
+        _ins = list(dis.get_instructions(c))
+        for _k, _op in enumerate(_ins):
+            if _op.opname == 'IMPORT_NAME' and _op.argval and _op.argval.split('.')[0] != 'pyrex':
+                _line = _op.positions.lineno if _op.positions else None
+                _in_guard = any(s_ <= _op.offset < e_ for s_, e_ in guards)
+                try:
+                    _m = importlib.import_module(_op.argval)
+                except Exception as e:
+                    (deprecated if _in_guard else bad).append([name, _line, 'import ' + _op.argval, type(e).__name__ + ': ' + str(e)[:120], 'guarded by try' if _in_guard else ''])
+                    continue
+                _j = _k + 1
+                while _j < len(_ins) and _ins[_j].opname in ('IMPORT_FROM', 'STORE_FAST', 'STORE_NAME', 'STORE_GLOBAL', 'STORE_DEREF', 'POP_TOP'):
+                    if _ins[_j].opname == 'IMPORT_FROM':
+                        total += 1; seen.add((name, _op.argval + '.' + _ins[_j].argval))
+                        if not hasattr(_m, _ins[_j].argval):
+                            try:
+                                importlib.import_module(_op.argval + '.' + _ins[_j].argval)
+                            except Exception as e:
+                                (deprecated if _in_guard else bad).append([name, _line, 'from %s import %s' % (_op.argval, _ins[_j].argval), type(e).__name__ + ': ' + str(e)[:120], 'guarded by try' if _in_guard else ''])
+                    _j += 1
         for chain, line, off in chains(c):
             root = chain[0]
             if root not in g and not hasattr(builtins, root) and root not in c.co_varnames and root not in c.co_freevars and root not in c.co_cellvars:
@@ -234,6 +255,63 @@ from pyrex.ray_tracing import SpecializedRayTracer, BasicRayTracer, UniformRayTr
 from pyrex.ice_model import AntarcticIce, UniformIce, ArasimIce, GreenlandIce
 from pyrex.askaryan import ARZAskaryanSignal, AVZAskaryanSignal, ZHSAskaryanSignal
 tmp = tempfile.mkdtemp(prefix='vt_c20x_')
+def touch(label, obj):
+    """Read every public property of the object (lazily evaluated quantities live there)."""
+    for nm in dir(type(obj)):
+        if nm.startswith('_'):
+            continue
+        desc = getattr(type(obj), nm, None)
+        if isinstance(desc, property) or type(desc).__name__ in ('lazy_property', 'cached_property'):
+            attempt('%s.%s' % (label, nm), lambda nm=nm: getattr(obj, nm))
+def tracers_and_paths():
+    li_ice = li.LayeredIce([UniformIce(1.4, valid_range=(-100, 0), index_above=None, index_below=None), AntarcticIce(valid_range=(-2850, -100), index_above=None, index_below=None)])
+    for rt, ice in ((SpecializedRayTracer, AntarcticIce()), (BasicRayTracer, ArasimIce()), (SpecializedRayTracer, GreenlandIce()), (UniformRayTracer, UniformIce(1.6)), (li.LayeredRayTracer, li_ice)):
+        for a, b in (((0., 0., -300.), (150., 20., -80.)), ((10., 0., -150.), (400., 0., -160.)), ((0, 0, -900), (30, 40, -200))):
+            def go(rt=rt, ice=ice, a=a, b=b):
+                tr = rt(a, b, ice)
+                touch(rt.__name__, tr)
+                for p in tr.solutions:
+                    touch(type(p).__name__, p)
+                    p.attenuation(np.array([1e8, 5e8])); p.propagate(pyrex.Signal(np.arange(64) * 1e-9, np.ones(64), 'field'), polarization=(0., 1., 0.))
+            attempt('tracer:%s' % rt.__name__, go)
+def antenna_histories():
+    t = np.arange(200) * 1e-9
+    for make in (lambda: pyrex.Antenna((0, 0, -100), freq_range=(1e8, 4e8), noise_rms=1e-5, noisy=True, unique_noise_waveforms=2),
+                 lambda: pyrex.DipoleAntenna('d', (0, 0, -100), 250e6, 300e6, 300, 50, noisy=True, unique_noise_waveforms=1)):
+        def go(make=make):
+            ant = make()
+            ant.make_noise(t[:20]); ant.make_noise(t); ant.make_noise(np.arange(5000) * 1e-9); ant.make_noise(t[:20] - 1e-5)     # short, longer, much longer, elsewhere
+            ant.receive(pyrex.Signal(t[:50], np.ones(50), 'voltage')); ant.waveforms; ant.is_hit
+            ant.receive(pyrex.Signal(np.arange(3000) * 1e-9, np.ones(3000), 'voltage')); ant.all_waveforms; ant.is_hit_during(np.arange(6000) * 1e-9); ant.full_waveform(np.arange(9000) * 0.5e-9)
+            ant.clear(reset_noise=True); ant.make_noise(t); touch(type(ant).__name__, ant)
+        attempt('antenna-history', go)
+def physics_objects():
+    from pyrex.particle import Particle
+    for model in (pyrex.particle.CTWInteraction, pyrex.particle.GQRSInteraction):
+        for pid in ('nu_e', 'nu_mu_bar', 'nu_tau'):
+            def go(model=model, pid=pid):
+                p = Particle(pid, (0, 0, -500), (0.1, 0.2, -0.9), 1e9, interaction_model=model)
+                touch('Particle', p); touch(model.__name__, p.interaction)
+                for sm in (ARZAskaryanSignal, AVZAskaryanSignal, ZHSAskaryanSignal):
+                    s = sm(np.arange(256) * 2e-10, p, 0.98, 100.0, t0=2e-8); s.values; touch(sm.__name__, s)
+                ARZAskaryanSignal.em_shower_profile(np.arange(0, 20), 1e9) if hasattr(ARZAskaryanSignal, 'em_shower_profile') else None
+                ARZAskaryanSignal.had_shower_profile(np.arange(0, 20), 1e9) if hasattr(ARZAskaryanSignal, 'had_shower_profile') else None
+                ARZAskaryanSignal.em_shower_profile(np.linspace(0, 20, 7), 1e9) if hasattr(ARZAskaryanSignal, 'em_shower_profile') else None
+            attempt('particle:%s:%s' % (model.__name__, pid), go)
+    def gens():
+        for g in (pyrex.CylindricalGenerator(500, 500, 1e9), pyrex.RectangularGenerator(500, 400, 300, lambda: 1e8, shadow=True), ):
+            ev = g.create_event(); touch(type(g).__name__, g); touch('Event', ev)
+            for p in ev:
+                g.get_exit_points(p); g.get_weights(p)
+    attempt('generators', gens)
+    def sigs():
+        t = np.arange(300) * 1e-9
+        f = pyrex.signals.FunctionSignal(t, lambda x: np.sin(2e8 * x), 'voltage'); f.set_buffers(leading=2e-8, trailing=1e-8); f.filter_frequencies(lambda q: 1 / (1 + 1j * q / 1e8)); f.values
+        touch('FunctionSignal', f); (f + f).values; (f * 2).values; f.with_times(t[5:90]).values; f.shift(1e-9); f.values
+        s = pyrex.Signal(t, np.random.normal(size=300), 'field'); touch('Signal', s); s.with_times(np.linspace(-1e-8, 4e-7, 77)); (s + s * 0.5); sum([s, s]); s.copy(); s.resample(100)
+        touch('EmptySignal', pyrex.signals.EmptySignal(t)); touch('GaussianNoise', pyrex.signals.GaussianNoise(t, 1.0))
+    attempt('signal-api', sigs)
+attempt('tracers', tracers_and_paths); attempt('antennas', antenna_histories); attempt('physics', physics_objects)
 def kernel_events():
     combos = [(SpecializedRayTracer, AntarcticIce()), (BasicRayTracer, ArasimIce()), (SpecializedRayTracer, GreenlandIce()),
               (UniformRayTracer, UniformIce(1.6)), (li.LayeredRayTracer, li.LayeredIce([UniformIce(1.4, valid_range=(-100, 0), index_above=None, index_below=None), AntarcticIce(valid_range=(-2850, -100), index_above=None, index_below=None)]))]
@@ -330,7 +408,8 @@ def run_case(case):
         for f in res["failures"]:
             v.check(False, "library attribute resolved at run time exists", module=f[0], chain=f[1], error=f[2])
         for e in res["workload_errors"]:
-            v.check("AttributeError" not in e[1] and "ImportError" not in e[1] and "ModuleNotFoundError" not in e[1] or "module" not in e[1],
+            missing = any(k in e[1] for k in ("AttributeError", "ImportError", "ModuleNotFoundError")) and any(k in e[1] for k in ("module", "numpy", "scipy", "h5py"))
+            v.check(not missing,
                     "workload does not fail on a missing library interface", workload=e[0], error=e[1], where=e[2])
         v.events += res["observed"]
         sample = {"monitor": "exec (attribute chains observed at run time through recording proxies)", "observed_at_runtime": res["observed"], "wrapped_globals": res["wrapped_globals"],
